@@ -19,10 +19,12 @@
 #pragma once
 
 #include <cstdint>
+#include <initializer_list>
 #include <map>
 #include <optional>
 #include <set>
 #include <string>
+#include <string_view>
 #include <vector>
 
 namespace m6 {
@@ -88,12 +90,36 @@ inline const std::vector<std::string>& tagNames() {
       "pres", "past", "futr", "1per", "2per", "3per", "sing", "plur", "masc", "femn", "neut", "nomn", "gent", "datv", "ablt", "accs", "loct"};
   return t;
 }
-inline int tagIndex(const std::string& name) {
+inline int tagIndex(std::string_view name) {
+  if (name.size() != 4) return -1;  // every grammeme name has four characters
   const auto& t = tagNames();
   for (size_t i = 0; i < t.size(); ++i) if (t[i] == name) return static_cast<int>(i);
   return -1;
 }
-using TagSet = std::set<int>;
+// a set of grammeme indices (0..34) as a bit mask; iteration is in enumeration order
+class TagSet {
+  uint64_t bits = 0;
+
+public:
+  TagSet() = default;
+  TagSet(std::initializer_list<int> init) { for (int t : init) insert(t); }
+  struct Inserted { bool second; };
+  Inserted insert(int t) { if (t < 0 || t > 63) return {false}; const uint64_t b = uint64_t{1} << t; const bool fresh = !(bits & b); bits |= b; return {fresh}; }
+  size_t count(int t) const { return t >= 0 && t < 64 && ((bits >> t) & 1) ? 1 : 0; }
+  size_t size() const { size_t n = 0; for (uint64_t b = bits; b; b &= b - 1) ++n; return n; }
+  bool empty() const { return bits == 0; }
+  bool operator==(const TagSet& o) const { return bits == o.bits; }
+  bool operator!=(const TagSet& o) const { return bits != o.bits; }
+  bool operator<(const TagSet& o) const { return bits < o.bits; }
+  struct Iter {
+    uint64_t rest;
+    int operator*() const { return __builtin_ctzll(rest); }
+    Iter& operator++() { rest &= rest - 1; return *this; }
+    bool operator!=(const Iter& o) const { return rest != o.rest; }
+  };
+  Iter begin() const { return {bits}; }
+  Iter end() const { return {0}; }
+};
 inline std::string tagsString(const TagSet& tags) {
   std::string o;
   for (int t : tags) { if (!o.empty()) o += ','; o += tagNames()[static_cast<size_t>(t)]; }
@@ -103,15 +129,17 @@ inline std::string tagsString(const TagSet& tags) {
 inline bool isSpaceC(char ch) { return ch == ' ' || ch == '\t' || ch == '\n' || ch == '\v' || ch == '\f' || ch == '\r'; }
 inline bool isDigitC(char ch) { return ch >= '0' && ch <= '9'; }
 inline bool isAlphaC(char ch) { return (ch >= 'a' && ch <= 'z') || (ch >= 'A' && ch <= 'Z'); }
-inline std::string trim(const std::string& s) {
+inline std::string_view trim(std::string_view s) {
   size_t a = 0, b = s.size();
   while (a < b && isSpaceC(s[a])) ++a;
   while (b > a && isSpaceC(s[b - 1])) --b;
   return s.substr(a, b - a);
 }
-inline std::vector<std::string> split(const std::string& s, char d) {
-  std::vector<std::string> r(1);
-  for (char ch : s) { if (ch == d) r.emplace_back(); else r.back() += ch; }
+// fields of s separated by d (views into s: s must outlive the result)
+inline std::vector<std::string_view> split(std::string_view s, char d) {
+  std::vector<std::string_view> r;
+  size_t from = 0;
+  for (size_t i = 0; i <= s.size(); ++i) if (i == s.size() || s[i] == d) { r.push_back(s.substr(from, i - from)); from = i + 1; }
   return r;
 }
 
@@ -120,7 +148,7 @@ enum class Kind { Malformed, Entity, Collab, Unspecified };
 
 struct Parsed {
   Kind kind = Kind::Malformed;
-  std::string why;         // reason (Malformed / Unspecified)
+  const char* why = "";    // reason (Malformed / Unspecified)
   std::string entity;      // Entity
   TagSet tags;             // Entity
   long long offset = 0;    // Collab
@@ -141,11 +169,11 @@ struct Parsed {
     return true;
   }
 };
-inline Parsed malformed(std::string why) { Parsed p; p.kind = Kind::Malformed; p.why = std::move(why); return p; }
-inline Parsed unspecified(std::string why) { Parsed p; p.kind = Kind::Unspecified; p.why = std::move(why); return p; }
+inline Parsed malformed(const char* why) { Parsed p; p.kind = Kind::Malformed; p.why = why; return p; }
+inline Parsed unspecified(const char* why) { Parsed p; p.kind = Kind::Unspecified; p.why = why; return p; }
 
 // optional '-' followed by at least one decimal digit (no '+', no blanks)
-inline bool isIntegerText(const std::string& s) {
+inline bool isIntegerText(std::string_view s) {
   size_t i = 0;
   if (!s.empty() && s[0] == '-') i = 1;
   if (i >= s.size()) return false;
@@ -154,9 +182,9 @@ inline bool isIntegerText(const std::string& s) {
 }
 
 // `cand` is exactly one candidate: "@{" inner "}" with the final '}' matching the opening brace.
-inline Parsed classify(const std::string& cand) {
+inline Parsed classify(std::string_view cand) {
   if (cand.size() < 3 || cand[0] != '@' || cand[1] != '{' || cand.back() != '}') return malformed("not a candidate");
-  const std::string inner = cand.substr(2, cand.size() - 3);
+  const std::string_view inner = cand.substr(2, cand.size() - 3);
   if (inner.empty()) return malformed("empty");
   const auto f = split(inner, '|');
   const size_t n = f.size();
@@ -169,9 +197,9 @@ inline Parsed classify(const std::string& cand) {
     // a name are undocumented - a name with a brace would even make the canonical spelling unbalanced
     for (char ch : f[0]) if (!isAlphaC(ch) && !isDigitC(ch) && ch != '_') return unspecified("entity name is not an identifier");
     Parsed p;
-    p.entity = f[0];
+    p.entity = std::string(f[0]);
     if (n == 2) {
-      for (const auto& raw : split(f[1], ',')) { const int t = tagIndex(trim(raw)); if (t >= 0) p.tags.insert(t); }
+      for (const auto raw : split(f[1], ',')) { const int t = tagIndex(trim(raw)); if (t >= 0) p.tags.insert(t); }
     } else {
       // legacy form: name | tag | tag [| number] - every field is one tag, a trailing numeric field is ignored
       p.legacy = true;
@@ -183,7 +211,7 @@ inline Parsed classify(const std::string& cand) {
       }
       for (size_t i = 1; i <= last; ++i) {
         if (f[i].empty()) return unspecified("legacy form with empty tag field");
-        if (f[i].find(',') != std::string::npos) return unspecified("comma list inside a legacy tag field");
+        if (f[i].find(',') != std::string_view::npos) return unspecified("comma list inside a legacy tag field");
         const int t = tagIndex(trim(f[i]));
         if (t >= 0) p.tags.insert(t);
       }
@@ -202,7 +230,7 @@ inline Parsed classify(const std::string& cand) {
     for (size_t i = neg ? 1 : 0; i < f[0].size(); ++i) { v = v * 10 + (f[0][i] - '0'); if (v > 4000000000LL) { big = true; v = 4000000000LL; } }
     if (neg) v = -v;
     p.offset = v;
-    p.nominal = f[1];
+    p.nominal = std::string(f[1]);
     if (big || v > 2147483647LL || v < -2147483648LL) p.offsetBeyondInt32 = true;
     if (v > 32767 || v < -32768) p.offsetBeyondInt16 = true;
     if (p.offsetBeyondInt16) {
@@ -290,8 +318,7 @@ inline Scan scan(const std::string& text) {
 }
 
 // the candidate that starts exactly at code point `start` and ends at `finish` (validation of a reported occurrence)
-inline std::optional<Occ> candidateAt(const std::string& text, int start, int finish) {
-  const auto offs = cpOffsets(text);
+inline std::optional<Occ> candidateAt(const std::string& text, const std::vector<size_t>& offs, int start, int finish) {
   const int n = static_cast<int>(offs.size()) - 1;
   if (start < 0 || finish > n || start >= finish) return std::nullopt;
   const size_t j = offs[static_cast<size_t>(start)];
@@ -303,6 +330,8 @@ inline std::optional<Occ> candidateAt(const std::string& text, int start, int fi
   o.p = classify(o.spelling);
   return o;
 }
+
+inline std::optional<Occ> candidateAt(const std::string& text, int start, int finish) { return candidateAt(text, cpOffsets(text), start, finish); }
 
 // true if some "@{" is preceded by a maximal run of '@' of even length (counting its own '@'): "@@{", "@@@@{" ...
 inline bool hasEvenAtRunBeforeBrace(const std::string& text) {
@@ -352,7 +381,7 @@ inline std::string matchSegs(const std::string& got, const std::vector<Seg>& seg
     if (close == std::string::npos) return "segment " + std::to_string(si) + ": reference not closed";
     TagSet seen;
     size_t count = 0;
-    for (const auto& t : split(got.substr(pos, close - pos), ',')) {
+    for (const auto t : split(std::string_view(got).substr(pos, close - pos), ',')) {
       const int ix = tagIndex(t);
       ++count;
       if (ix < 0 || !seen.insert(ix).second) return "segment " + std::to_string(si) + ": tag list '" + got.substr(pos, close - pos) + "' want a permutation of '" + tagsString(g.ref.tags) + "'";
@@ -508,15 +537,21 @@ struct Shadow {
     EraseOutcome o; o.a = a; o.b = b;
     if (a == b) { o.e = Expect::Free; o.why = "empty range"; return o; }
     if (expand) for (auto& r : refs) if (r.start <= a && b <= r.finish) { o.a = a = r.start; o.b = b = r.finish; break; }
-    bool leftTouch = false, rightTouch = false;
+    bool leftTouch = false, rightTouch = false, removesRef = false;
     for (auto& r : refs) {
       const bool overlap = std::max(a, r.start) < std::min(b, r.finish);
       const bool contained = a <= r.start && r.finish <= b;
       if (overlap && !contained) { o.e = Expect::MustRefuse; o.why = "partial overlap"; return o; }
+      if (overlap) removesRef = true;
       if (!overlap && r.finish == a) leftTouch = true;
       if (!overlap && r.start == b) rightTouch = true;
     }
-    if (leftTouch && rightTouch) { o.e = Expect::MustRefuse; o.why = "would join two references"; return o; }
+    if (leftTouch && rightTouch) {
+      // documented (EraseIn{7,11} in UTRefsManager.EraseRefsRange) for a plain gap between two references; when the range
+      // also covers references that already touch their neighbours nothing is documented
+      if (removesRef) { o.e = Expect::Free; o.why = "covers a reference that touches both neighbours"; return o; }
+      o.e = Expect::MustRefuse; o.why = "would join two references"; return o;
+    }
     o.e = Expect::MustAccept;
     return o;
   }
